@@ -43,11 +43,12 @@ func must(err error) {
 type pathT = [][]any // [[signer, com], ...]
 
 type world struct {
-	net    *sim.Net
-	stream []*block.Block
-	path   map[thor.Bytes32]pathT
-	nState map[thor.Bytes32]int // number of state writes of the block's import (from the reference run)
-	rng    *rand.Rand
+	net     *sim.Net
+	stream  []*block.Block
+	path    map[thor.Bytes32]pathT
+	nState  map[thor.Bytes32]int // number of state writes of the block's import (from the reference run)
+	rng     *rand.Rand
+	txWhere map[thor.Bytes32][]thor.Bytes32 // tx id -> blocks of the stream containing it
 }
 
 func (w *world) p(id thor.Bytes32) pathT {
@@ -77,7 +78,7 @@ func buildStream(seed int64, blocks int) *world {
 	rng := rand.New(rand.NewSource(seed))
 	E := uint32(3)
 	net := sim.NewNet(sim.Options{Validators: 4, Nodes: 1, EpochLength: E, PoS: rng.Intn(3) == 0, ExtraAccts: 3})
-	w := &world{net: net, path: map[thor.Bytes32]pathT{}, nState: map[thor.Bytes32]int{}, rng: rng}
+	w := &world{net: net, path: map[thor.Bytes32]pathT{}, nState: map[thor.Bytes32]int{}, rng: rng, txWhere: map[thor.Bytes32][]thor.Bytes32{}}
 	g := net.B0.Header().ID()
 	w.path[g] = pathT{}
 	used := map[string]bool{}
@@ -100,6 +101,16 @@ func buildStream(seed int64, blocks int) *world {
 			Gas(100000).GasPriceCoef(0).Nonce(nonce).Clause(cl).Build()
 		return tx.MustSign(t, net.Devs[from].PrivateKey)
 	}
+	// a transaction with ~150 KB of call data: the block bulk of its block exceeds the kv engine's ideal batch size
+	bigTx := func(parent *block.Block) *tx.Transaction {
+		nonce++
+		to := net.Devs[5].Address
+		cl := tx.NewClause(&to).WithData(make([]byte, 150*1024))
+		t := tx.NewBuilder(tx.TypeLegacy).ChainTag(tag).BlockRef(tx.NewBlockRef(parent.Header().Number())).Expiration(1000).
+			Gas(2_000_000).GasPriceCoef(0).Nonce(nonce).Clause(cl).Build()
+		return tx.MustSign(t, net.Devs[4].PrivateKey)
+	}
+	bigAt := uint32(3 + rng.Intn(6))
 	mint := func(parent *block.Block, who int, com bool, withTx bool) *block.Block {
 		pp := w.p(parent.Header().ID())
 		key := fmt.Sprint(pp, who, com)
@@ -113,6 +124,9 @@ func buildStream(seed int64, blocks int) *world {
 				txs = append(txs, mkTx(parent))
 			}
 		}
+		if parent.Header().Number()+1 == bigAt {
+			txs = append(txs, bigTx(parent))
+		}
 		blk, err := net.Mint(parent.Header().ID(), who, com, 0, txs...)
 		if err != nil {
 			panic(err)
@@ -120,6 +134,9 @@ func buildStream(seed int64, blocks int) *world {
 		used[key] = true
 		np := append(append(pathT{}, pp...), []any{fmt.Sprintf("v%d", who), com})
 		w.path[blk.Header().ID()] = np
+		for _, t := range blk.Transactions() {
+			w.txWhere[t.ID()] = append(w.txWhere[t.ID()], blk.Header().ID())
+		}
 		return blk
 	}
 	trunk := []*block.Block{net.B0}
@@ -273,6 +290,8 @@ type cutResult struct {
 	LogsDiff   string   `json:"logs_diff,omitempty"`  // log db differs from the canonical chain after restart / at the end
 	StateDiff  string   `json:"state_diff,omitempty"` // state of best differs from the uninterrupted node's state of that block
 	FinContra  string   `json:"finality_contradiction,omitempty"`
+	TxLookup   string   `json:"tx_lookup,omitempty"` // a tx is found by id although it is not on best's chain (or vice versa)
+	Variant    string   `json:"variant,omitempty"`
 	Diverged   string   `json:"diverged,omitempty"` // after resuming: best / qualities / finalized differ from the reference
 	ImportErrs []string `json:"import_errors,omitempty"`
 	Events     int      `json:"events"`
@@ -284,6 +303,7 @@ type reference struct {
 	stateOf    map[thor.Bytes32]string // state digest per block
 	writes     []kvrec.Batch
 	writeBlock []int  // height of the block a write belongs to
+	writePos   []int  // stream position of the block a write belongs to
 	finAtPos   []bool // stream position -> its import wrote the finalized key on the reference node
 	n          int
 }
@@ -296,6 +316,11 @@ func main() {
 	double := flag.Bool("double", false, "add a second crash during the resumed run for a sample of cuts")
 	flag.Parse()
 	must(os.MkdirAll(*out, 0o755))
+	// the recording engine stands in for thor's LevelEngine: check the contract that makes this sound on the REAL one
+	engineContract := ""
+	if err := kvrec.CheckRealBulkContract(*seed, 60); err != nil {
+		engineContract = err.Error()
+	}
 
 	w := buildStream(*seed, *blocks)
 	defer w.net.Close()
@@ -308,10 +333,13 @@ func main() {
 		r := &runner{w: w, kv: kvrec.New(), ldb: ldb, recordCounts: true}
 		must(r.open(true))
 		r.base = r.kv.Len()
-		for _, blk := range w.stream {
+		for pos, blk := range w.stream {
 			before := r.kv.Len()
 			if !r.deliver(blk) {
 				panic("reference crashed")
+			}
+			for i := before; i < r.kv.Len(); i++ {
+				ref.writePos = append(ref.writePos, pos)
 			}
 			fin := false
 			for i, b := range r.kv.Log()[before:] {
@@ -399,21 +427,29 @@ func main() {
 		if *double && w.rng.Intn(3) == 0 {
 			second = w.rng.Intn(ref.n + 1)
 		}
-		res, evs := runCut(w, ref, k, second)
+		res, evs := runCut(w, ref, k, second, false)
 		results = append(results, res)
 		all = append(all, evs...)
+		if k < ref.n && hasSibling(w, ref, k) {
+			res, evs := runCut(w, ref, k, -1, true)
+			results = append(results, res)
+			all = append(all, evs...)
+		}
 	}
 	must(trace.WriteNDJSON(filepath.Join(*out, "trace.ndjson"), all))
 	f, err := os.Create(filepath.Join(*out, "cuts.json"))
 	must(err)
-	must(json.NewEncoder(f).Encode(map[string]any{"seed": *seed, "writes": ref.n, "blocks": len(w.stream), "pos": w.net.Opt.PoS,
+	must(json.NewEncoder(f).Encode(map[string]any{"seed": *seed, "engine_contract": engineContract, "writes": ref.n, "blocks": len(w.stream), "pos": w.net.Opt.PoS,
 		"refBest": block.Number(ref.best), "refFin": block.Number(ref.fin), "cuts": results}))
 	f.Close()
 	fmt.Printf("{\"cuts\":%d,\"writes\":%d,\"events\":%d,\"refFin\":%d}\n", len(results), ref.n, len(all), block.Number(ref.fin))
 }
 
-func runCut(w *world, ref *reference, k, second int) (cutResult, []trace.Ev) {
+func runCut(w *world, ref *reference, k, second int, siblingFirst bool) (cutResult, []trace.Ev) {
 	res := cutResult{K: k, Phase: "none", Inflight: -1, Second: second}
+	if siblingFirst {
+		res.Variant = "sibling-first"
+	}
 	if k < ref.n {
 		res.Phase = kvrec.WriteClass(&ref.writes[k])
 		res.Inflight = ref.writeBlock[k]
@@ -421,7 +457,7 @@ func runCut(w *world, ref *reference, k, second int) (cutResult, []trace.Ev) {
 	ldb, err := logdb.NewMem()
 	must(err)
 	r := &runner{w: w, kv: kvrec.New(), ldb: ldb}
-	r.evs = append(r.evs, trace.Ev{"e": "Reset", "k": k, "phase": res.Phase, "second": second})
+	r.evs = append(r.evs, trace.Ev{"e": "Reset", "k": k, "phase": res.Phase, "second": second, "novalidate": siblingFirst})
 	must(r.open(true))
 	r.base = r.kv.Len()
 	crashed := false
@@ -478,8 +514,35 @@ func runCut(w *world, ref *reference, k, second int) (cutResult, []trace.Ev) {
 		}
 		r.evs = append(r.evs, trace.Ev{"e": "Restart", "best": w.p(best), "fin": w.p(fin), "logs": r.logsHead(),
 			"complete": complete, "logsok": logsOK})
+		if err := nodecheck.TxLookupConsistent(r.node.Repo, w.txWhere); err != nil && res.TxLookup == "" {
+			res.TxLookup = "after restart: " + err.Error()
+		}
 		if pass == 1 && second >= 0 {
 			r.kv.CrashAt(r.kv.Len() + second) // a second crash while resuming (may never be reached)
+		}
+		if pass == 1 && siblingFirst && r.lastCrashPos < len(w.stream) {
+			// the network moved on with a DIFFERENT block at that height: siblings of the block in flight arrive first
+			inflight := w.stream[r.lastCrashPos]
+			for _, sb := range w.stream {
+				if sb.Header().ParentID() == inflight.Header().ParentID() && sb.Header().ID() != inflight.Header().ID() {
+					func() {
+						defer func() {
+							if x := recover(); x != nil {
+								if _, ok := x.(kvrec.CrashSentinel); !ok {
+									panic(x)
+								}
+							}
+						}()
+						r.node.Deliver(sb)
+					}()
+					if err := nodecheck.LogDBMatchesChain(r.node.Repo, r.ldb); err != nil && res.LogsDiff == "" {
+						res.LogsDiff = "after the sibling of the block in flight was imported: " + err.Error()
+					}
+					if err := nodecheck.TxLookupConsistent(r.node.Repo, w.txWhere); err != nil && res.TxLookup == "" {
+						res.TxLookup = "after the sibling of the block in flight was imported: " + err.Error()
+					}
+				}
+			}
 		}
 	}
 	// ---- end of the (resumed) stream
@@ -523,11 +586,26 @@ func runCut(w *world, ref *reference, k, second int) (cutResult, []trace.Ev) {
 		if _, err := nodecheck.BestComplete(r.node.Repo, r.node.DB); err != nil && res.Incomplete == "" {
 			res.Incomplete = "at the end: " + err.Error()
 		}
+		if err := nodecheck.TxLookupConsistent(r.node.Repo, w.txWhere); err != nil && res.TxLookup == "" {
+			res.TxLookup = "at the end: " + err.Error()
+		}
 	}
 	r.node.Node.VerifClose()
 	res.Events = len(r.evs)
 	res.Phases = r.crashPhases
 	return res, r.evs
+}
+
+// hasSibling: does the block in flight at cut k have a sibling (same parent) in the stream?
+func hasSibling(w *world, ref *reference, k int) bool {
+	pos := ref.writePos[k]
+	in := w.stream[pos]
+	for _, sb := range w.stream {
+		if sb.Header().ParentID() == in.Header().ParentID() && sb.Header().ID() != in.Header().ID() {
+			return true
+		}
+	}
+	return false
 }
 
 func isAnc(w *world, a, b thor.Bytes32) bool {
